@@ -43,13 +43,13 @@ def showCase (c : Case) : String :=
 
 def counts (l : List Case) : String :=
   "tests=" ++ toString (tests l) ++ " pass=" ++ toString (passes l) ++ " fail=" ++ toString (failures l)
-  ++ " err=" ++ toString (errors l) ++ " skip=" ++ toString (skips l) ++ " flaky=" ++ toString (flakyPasses l)
+  ++ " err=" ++ toString (errors l) ++ " skip=" ++ toString (skips l) ++ " flaky=" ++ toString (flakyPassesWith (flakyStrictOf Generated.C26.flakyCond) l)
   ++ " all=" ++ (if allSucceeded l then "1" else "0")
 
 def summary (l : List Case) : String :=
   "cases=" ++ (if l.isEmpty then "-" else ";".intercalate (l.map showCase))
   ++ " tests=" ++ toString (tests l) ++ " pass=" ++ toString (passes l) ++ " fail=" ++ toString (failures l)
-  ++ " err=" ++ toString (errors l) ++ " skip=" ++ toString (skips l) ++ " flaky=" ++ toString (flakyPasses l)
+  ++ " err=" ++ toString (errors l) ++ " skip=" ++ toString (skips l) ++ " flaky=" ++ toString (flakyPassesWith (flakyStrictOf Generated.C26.flakyCond) l)
   ++ " all=" ++ (if allSucceeded l then "1" else "0")
 
 def digit (c : Char) : Option Nat := if '0' ≤ c ∧ c ≤ '9' then some (c.toNat - 48) else none
